@@ -410,7 +410,7 @@ fn run_n<const N: usize>(mut sys: System, rng: &mut ChaCha8Rng, case: u64, quick
     }
     let proved = proved.unwrap();
     // ---- negatives on the traces ---------------------------------------------------------------
-    set_knobs(StarkProverKnobs { skip_constraint_check: true, lenient_truncation: true, aux_edits: vec![], aux_trace: None });
+    set_knobs(StarkProverKnobs { skip_constraint_check: true, lenient_truncation: true, ..Default::default() });
     let reps = if quick { 1 } else { 2 };
     for _ in 0..reps {
         for ci in 0..sys.ctls.len() {
